@@ -100,6 +100,8 @@ ReshapeBad(x) ==
     \/ x.k = "ttm" /\ C("reshape", "numel", x, [shape |-> <<>>], TRUE, TRUE)     \* harness: [(M1*2, N1)] + rest
     \/ x.k = "tt" /\ Prod(x.I) > 1 /\ C("qtt_to_tens", "numel", x, [shape |-> <<Prod(x.I) + 1>>], TRUE, TRUE)
     \/ x.k = "tt" /\ (\E p \in 1..Len(x.I) : x.I[p] = 3) /\ C("to_qtt", "power", x, <<>>, TRUE, TRUE)
+    \* the optional mode_size: a mode that is neither 1 nor a power of mode_size (here 2 or 4 with mode_size = 3)
+    \/ x.k = "tt" /\ (\E p \in 1..Len(x.I) : x.I[p] \in {2, 4}) /\ C("to_qtt_ms3", "power", x, <<>>, TRUE, TRUE)
 IndexBad(x) ==
     LET d == Len(x.I) IN
     \/ x.k = "tt" /\ C("index", "too_many", x, [n |-> d + 1], FALSE, TRUE)         \* d+1 integer indices (IndexError, as numpy)
